@@ -541,6 +541,7 @@ func runC17(c *Ctx) {
 		c.Inconclusive("hook configuration not as requested")
 		return
 	}
+	c17panicPayloads(c, hooked)
 	// product: class x shape x verb x flags x wp (+ panicking hook)
 	var cases []*c17case
 	id := 0
